@@ -27,7 +27,8 @@ positions:
 * `line_edit_at_file_start_not_invariant` — why `TriviaEdit.line` demands a preceding `NewLine`
   token: inserting a trivia line before the first token of the file changes `same_line`
   (defect F-C10-2 of the implementation).
-* `cursor_invariant_raw`, `peek_skips_only_trivia`, `indent_rule_table`, `queue_transparent`.
+* `cursor_invariant_raw`, `peek_skips_only_trivia`, `indent_rule_table`, `queue_peek_spec`,
+  `queue_transparent`.
 
 Inspection (trusted, not proved; checked against parser.rs at 5f1b75a; the `self.lexer` /
 `current_token` / `current_indent()` parts are re-scanned by the harness on every run): line numbers obtained from
@@ -508,28 +509,40 @@ theorem cursor_invariant_raw {ρ : Nat → Nat → Prop} (c c' : Cur) (hs : Sim 
       simp only [peekTokenN, e, e2']
       rw [h1 g2' t2' r2' (by omega), h1 g t r hle, kinds]
 
-/-- `KotoLexer::peek(n)` with `n ≤ token_queue.len()` — the only way `parser.rs` calls it
-(sequential peeks, `peek_count + 1` after a peek) — is transparent: it returns the `n`-th
-unconsumed token and never underflows. -/
-theorem queue_transparent (rest : List Lexed) (queued n : Nat) (h : n ≤ queued) (hq : queued ≤ rest.length) :
-    queuePeek rest queued n = .ok rest[n]? (min (queued + 1) rest.length) := by
+/-- `KotoLexer::peek(n)` is the `n`-th unconsumed token, for EVERY `n` and every queue state, and it
+reads no further than needed: afterwards the queue holds `max(queued, n + 1)` tokens (or all that
+are left) — never more than one token past the furthest peek. (Positive restatement of the former
+`queue_peek_quirks`: before /repo b5b4493 `peek(len + 2)` underflowed, `peek(len + 1)` answered
+`None`, and `peek(n)` with `n < len` read one token too many.) -/
+theorem queue_peek_spec (rest : List Lexed) (queued n : Nat) :
+    (queuePeek rest queued n).1 = rest[n]? ∧
+    (queuePeek rest queued n).2 = min (max queued (n + 1)) rest.length ∧
+    (queuePeek rest queued n).2 ≤ max queued (n + 1) := by
   unfold queuePeek
-  have hm : max n queued = queued := by omega
-  simp only [hm]
-  have : ¬ (queued > queued + 1) := by omega
-  simp only [this, if_false]
-  have e : queued + (queued + 1 - queued) = queued + 1 := by omega
+  have e : queued + (n + 1 - queued) = max queued (n + 1) := by omega
   simp only [e]
-  by_cases hn : n < min (queued + 1) rest.length
+  refine ⟨?_, trivial, Nat.min_le_left _ _⟩
+  by_cases hn : n < min (max queued (n + 1)) rest.length
   · simp [hn]
   · have : rest.length ≤ n := by omega
     simp [hn, List.getElem?_eq_none this]
 
-/-- the quirk itself: peeking two past an empty queue underflows, one past it sees nothing -/
-theorem queue_peek_quirks (a b c : Lexed) :
-    queuePeek [a, b, c] 0 2 = .underflow ∧ queuePeek [a, b, c] 0 1 = .ok none 0 := by
-  simp [queuePeek]
+/-- the way `parser.rs` calls it (`n ≤ token_queue.len()`: sequential peeks, `peek_count + 1` after
+a peek): the `n`-th unconsumed token, and at most one token is lexed -/
+theorem queue_transparent (rest : List Lexed) (queued n : Nat) (h : n ≤ queued) :
+    queuePeek rest queued n = (rest[n]?, min (max queued (n + 1)) rest.length) ∧
+    (queuePeek rest queued n).2 ≤ queued + 1 := by
+  obtain ⟨h1, h2, h3⟩ := queue_peek_spec rest queued n
+  refine ⟨Prod.ext h1 h2, ?_⟩
+  omega
 
+/-- `next` after `peek` hands out exactly the peeked token -/
+theorem queue_next_after_peek (rest : List Lexed) (queued : Nat) :
+    (queueNext rest (queuePeek rest queued 0).2).1 = (queuePeek rest queued 0).1 := by
+  have h := (queue_peek_spec rest queued 0).1
+  cases rest with
+  | nil => simp [queueNext, h]
+  | cons t r => simp [queueNext, h]
 
 /-! ### deletions and sequences of edits -/
 
@@ -589,7 +602,11 @@ example : (consumeTokenWithContext Ctx.permissive
     some (.id, { Ctx.permissive with expected := .equal 2, allowMapBlock := true }) := by
   decide
 
-example : queuePeek [wtok .id 0 0 0, wtok .number 0 0 0] 1 1 = .ok (some (wtok .number 0 0 0)) 2 :=
-  queue_transparent _ 1 1 (by decide) (by decide)
+/-- peeking two past an empty queue now simply reads three tokens -/
+example : queuePeek [wtok .id 0 0 0, wtok .number 0 0 0, wtok .id 0 0 0] 0 2 = (some (wtok .id 0 0 0), 3) := by
+  decide
+
+example : queuePeek [wtok .id 0 0 0, wtok .number 0 0 0] 1 1 = (some (wtok .number 0 0 0), 2) :=
+  (queue_transparent _ 1 1 (by decide)).1
 
 end KotoVerif.C10
